@@ -72,13 +72,17 @@ class Run:
         # BLOB elements for which an update was published after the client's latest definition (I-13): with FIFO
         # delivery the client must then hold exactly the driver's BLOB
         self.blob_strict = {}
-        if snoop:
-            self.client = self.w.devices[1].snoop_device("DEV0")
-            self.w.settle()
-            self.handshaken = {"DEV0"}
-        else:
-            self.client = self.w.make_client()
-            self.handshaken = {s["name"] for s in self.specs}
+        try:
+            if snoop:
+                self.client = self.w.devices[1].snoop_device("DEV0")
+                self.w.settle()
+                self.handshaken = {"DEV0"}
+            else:
+                self.client = self.w.make_client()
+                self.handshaken = {s["name"] for s in self.specs}
+        except BaseException:
+            self.w.close()
+            raise
 
     def close(self):
         self.w.close()
@@ -313,7 +317,12 @@ def wire_mirror_check(run):
 
 def run_history(p, path, snoop, delivery="whole", cuts=None, chooser=None, judge_each=False):
     """execute a history; delivery settings apply to the LAST operation only. returns (fails, canon, info)"""
-    run = Run(p, snoop)
+    try:
+        run = Run(p, snoop)
+    except Exception as e:  # noqa
+        from mc import lib
+
+        return [("handshake-failed", "variant=%s,%s" % (p["variant"], lib.exc_site(e)), "connecting and handshaking failed: %r" % (e,))], None, {}
     try:
         try:
             run.truths()
